@@ -323,7 +323,7 @@ func checkC01(c *Ctx, r *Report) {
 	m.checkDebitRating(r, key)
 
 	// ---- R3 / R6: account server
-	abmfRules(c, r, "C01.R3", "C01.R3", "", "", "C01.R6")
+	abmfRules(c, r, "C01.R3", "C01.R3", "", "", "C01.R6", "")
 
 	// ---- R5 who may write
 	checkCellWriters(c, r, "C01.R5")
@@ -746,5 +746,5 @@ func checkC06(c *Ctx, r *Report) {
 	r.check(okAll, "C06.R3", key+"|final-unit", c.rel(f.Pos()), "set only on the edge FinalUnitIndication != nil && FinalUnitAction == TERMINATE of the account answer", why)
 
 	// ---- R4
-	abmfRules(c, r, "C06.R4", "", "", "", "")
+	abmfRules(c, r, "C06.R4", "", "", "", "", "")
 }
